@@ -3,8 +3,7 @@ package checks
 import (
 	"fmt"
 	"os"
-	"runtime"
-	"time"
+	"strings"
 
 	"verifharness/vc"
 )
@@ -12,19 +11,15 @@ import (
 func init() {
 	vc.Register(&vc.Check{ID: "SMOKE", Level: "exploration", Serial: true, Run: func(ctx *vc.Ctx) {
 		m := clusterModel{}
-		hist := []string{"join 1 0", "join 2 0", "leave 0", "pushpull 0 1", "tick"}
-		full := hist
-		for k := 0; k <= len(full); k++ {
-			hist = full[:k]
-			scn := "N=3;L=3;faults=0"
-			t0 := time.Now()
-			var st vc.BFSState
-			for i := 0; i < 1500; i++ {
-				st = m.Exec(scn, hist)
-			}
-			var ms runtime.MemStats
-			runtime.ReadMemStats(&ms)
-			fmt.Printf("heap=%dMB objs=%d gc=%d goroutines=%d %s %v: %v per exec (closure=%s); enabled=%d err=%q viol=%d\n", ms.HeapAlloc>>20, ms.HeapObjects, ms.NumGC, runtime.NumGoroutine(), scn, hist, time.Since(t0)/1500, os.Getenv("CL_NOCLOSURE"), len(st.Enabled), st.Err, len(st.Violations))
+		scn := os.Getenv("SMOKE_SCN")
+		hist := strings.Split(os.Getenv("SMOKE_HIST"), ",")
+		if os.Getenv("SMOKE_HIST") == "" {
+			hist = nil
+		}
+		st := m.Exec(scn, hist)
+		fmt.Printf("key: %s\nenabled: %v\nerr=%q\n", st.Key, st.Enabled, st.Err)
+		for _, v := range st.Violations {
+			fmt.Printf("VIOL %s: %s\n", v.Signature, v.Message)
 		}
 	}})
 }
